@@ -240,3 +240,16 @@ Print Assumptions C12_read_list_mirror_bits.
 Print Assumptions C12_read_field_rule.
 Print Assumptions C12_read_count.
 Print Assumptions C12_golomb_refused_under_lsb0.
+
+(* lsb0 stream HISTORIES (StreamLsb.v): running any history of mirrorable operations (every operation of the stream language except reads of
+   exp-Golomb tokens - refused under lsb0 - and unit-step integer slice assignment - the integer is encoded in stored order) under lsb0 on
+   (d, pos) gives the bit-reversed content of running the mirrored history (bitstring operands reversed) under msb0 on (rev d, pos), with
+   the same positions and the same exceptions, step by step *)
+From BS Require Import StreamHistory StreamLsb.
+Theorem C12_stream_step_mirror : forall (s : stream) (op : sop), mirrorable op = true -> step_x true s op = mpair (step_x false (mstream s) (mirror_op op)).
+Proof. exact step_mirror. Qed.
+Theorem C12_stream_history_mirror : forall (ops : list sop) (s : stream), forallb mirrorable ops = true ->
+  run_m true s ops = mstream (srun (mstream s) (map mirror_op ops)).
+Proof. exact run_m_mirror. Qed.
+Print Assumptions C12_stream_step_mirror.
+Print Assumptions C12_stream_history_mirror.
